@@ -533,6 +533,10 @@ ALIAS_TOKENS = {k: v.split("::") for k, v in formobs.CANON.items()}
 ALIAS_TOKENS.update({"constraint_message": ["bind", "jr:constraintMsg"], "required_message": ["bind", "jr:requiredMsg"]})
 
 
+KNOWN_LOWER_COLS = {"type", "name", "label", "hint", "default", "parameters", "trigger", "choice_filter", "disabled", "bind",
+                    "control", "media", "instance", "guidance_hint", "intent", "query", "list_name"}
+
+
 def typed_rows(form):
     """the survey rows as header grouping leaves them: string cells, nested pair lists for grouped columns
     (the harness's own reading of sheet_headers.process_header / process_row for conflict-free rows)"""
@@ -557,6 +561,8 @@ def typed_rows(form):
                 continue
             t = list(toks[h])
             first = snake(t[0])
+            if first != t[0] and first not in ALIAS_TOKENS and first not in KNOWN_LOWER_COLS:
+                first = t[0]  # "avoid changing unknown columns" (process_header): the original spelling is kept
             t = (ALIAS_TOKENS.get(first) or [first]) + t[1:]
             ok = put(cells, t, re.sub(r"( )+", " ", str(v).strip())) and ok
         if not ok:
@@ -645,6 +651,70 @@ def rowloop_forms(rng):
                         if o2[0] not in f["survey"][where]:
                             f["survey"][where][o2[0]] = o2[1]
                 yield kind, odd, f
+
+
+# ------------------------------------------------------------------------------- stream P: header splitting, settings reads
+
+ODD_HEADERS = ["x:jr", "a:b:jr", "jr", "jr:jr", "a:jr:b", "bind:jr:count", " x : jr ", "jr:", "label:jr", "x:jr:y:jr",
+               "hint:en", "a:b", "bind: relevant", "jr:count", "x : y : jr", "media:image:jr"]
+SETTING_KEYS_READ = ["clean_text_values", "add_none_option", "allow_choice_duplicates", "omit_instanceID", "children",
+                     "flat", "public_key", "instance_name", "default_language", "form_title"]
+
+
+def preloop_cases():
+    T = [{"type": "text", "name": "a", "label": "A"}]
+    L = [{"list_name": "l", "name": "a", "label": "A"}]
+    for h in ODD_HEADERS:
+        for dbl in (False, True):
+            row = {"type": "text", "name": "b", "label": "B", h: "v"}
+            if dbl:
+                row["label::en"] = "B"
+                row.pop("label")
+            yield {"stream": "preloop", "kind": "header", "header": h, "useDouble": dbl, "form": {"survey": T + [row]}, "via": "dict"}
+    for key in SETTING_KEYS_READ:
+        for shape in ("plain", "grouped"):
+            for val in ("yes", "x"):
+                for choices in (False, True):
+                    for rows in (True, False):
+                        k = key if shape == "plain" else key + "::x"
+                        st = {k: val}
+                        if not rows:
+                            st["omit_instanceID" if key != "omit_instanceID" else "form_id"] = "yes" if key != "omit_instanceID" else "f"
+                        f = {"survey": T if rows else [], "survey_cols": ["type", "name", "label"], "settings": [st]}
+                        if choices:
+                            f["choices"] = L
+                            if rows:
+                                f["survey"] = T + [{"type": "select_one l", "name": "s", "label": "S"}]
+                        yield {"stream": "preloop", "kind": "settings", "key": k, "form": f, "via": "dict"}
+
+
+def preloop_case(ctx, case):
+    form = case["form"]
+    r = run_case(case)
+    check_no_internal(ctx, case, r)
+    in_fn = r["class"] == "internal"
+    if case["kind"] == "header":
+        m = ctx.driver.call("c17.header", header=case["header"], useDouble=case["useDouble"])
+        here = in_fn and r.get("site") == "sheet_headers.py:process_header"
+    else:
+        st = form["settings"][0]
+        if any(typed_rows({"survey": [st]}) is None for _ in (0,)):
+            return
+        row = typed_rows({"survey": [st]})[0]
+        # ALIAS_TOKENS is for the survey sheet; settings keys are not dealiased there except the id / title aliases
+        row = [[k, v] for k, v in row]
+        omit = str(st.get("omit_instanceID", "")).lower() in YES
+        appends = bool(form["survey"]) or not omit or "instance_name" in st
+        m = ctx.driver.call("c17.settings", row=row, hasChoices=bool(form.get("choices")), appends=appends)
+        here = in_fn and r.get("site") == "xls2json.py:workbook_to_json"
+    ctx.count(f"P:{case['kind']}:model:{m['outcome']}/impl:{'internal-here' if here else r['class']}")
+    if m["outcome"] == "internal":
+        if not (here and r.get("exc") == m["exc"]):
+            ctx.mismatch("pre-loop: model predicts an internal exception the implementation does not raise there", case,
+                         {k: r.get(k) for k in ("class", "exc", "site", "msg")}, m)
+    elif here:
+        ctx.mismatch("pre-loop: the implementation raises an internal exception there, the model does not", case,
+                     {k: r.get(k) for k in ("class", "exc", "site", "msg")}, m)
 
 
 def every_kind_prefix(langs):
@@ -742,6 +812,11 @@ def explore(ctx, factor, bs):
             case = {"stream": "rowloop", "kind": kind, "odd": odd, "form": f, "via": "dict"}
             rowloop_case(ctx, case)
             ctx.record(case, True)
+    # ---- P: header splitting and the settings reads (model Pyxv.PreLoop)
+    if factor == 1:
+        for case in preloop_cases():
+            preloop_case(ctx, case)
+            ctx.record(case, True)
     # ---- A: catalogue
     n_forms = ctx.pick(14, 110) * factor
     site_cap = ctx.pick(40, 120)
@@ -810,6 +885,8 @@ def replay(ctx, payload, bs):
         fuzz_case(ctx, case, correspond=case.get("kind") == "valid+")
     elif case.get("stream") == "rowloop":
         rowloop_case(ctx, case)
+    elif case.get("stream") == "preloop":
+        preloop_case(ctx, case)
     else:
         check_no_internal(ctx, case, run_case(case))
     return (len(ctx.failures), len(ctx.mismatches)) == before
